@@ -6,7 +6,39 @@ verus! {
 // (root level: deriving Structural inside a module trips a Verus internal error)
 #[derive(PartialEq, Eq, Structural)]
 pub struct Timeout(pub u64);                           // operation::Timeout(Duration), whole seconds
-pub struct UrlSchemes { pub id: u64 }     // Vec<Box<str>>
+// a string, abstracted to an identifier (equal strings <=> equal ids); `==` is structural
+#[derive(PartialEq, Eq, Structural, Clone, Copy)]
+pub struct StrId { pub id: u64 }
+pub uninterp spec fn str_prefix(p: StrId, s: StrId) -> bool;      // p is a prefix of s
+pub uninterp spec fn str_contains(s: StrId, p: StrId) -> bool;
+impl StrId {
+    // str methods other than `==` that a scheme comparison might be written with: results are only constrained by
+    // reflexivity, so code using them instead of `==` does not get the equality it needs
+    #[verifier::external_body] pub fn starts_with(&self, p: StrId) -> (r: bool) ensures r == str_prefix(p, *self), p == *self ==> r { unimplemented!() }
+    #[verifier::external_body] pub fn ends_with(&self, p: StrId) -> (r: bool) ensures p == *self ==> r { unimplemented!() }
+    #[verifier::external_body] pub fn contains(&self, p: StrId) -> (r: bool) ensures r == str_contains(*self, p), p == *self ==> r { unimplemented!() }
+    #[verifier::external_body] pub fn eq_ignore_ascii_case(&self, p: StrId) -> (r: bool) ensures p == *self ==> r { unimplemented!() }
+    pub fn as_ref(&self) -> (r: StrId) ensures r == *self { *self }
+}
+pub struct BoxStr { pub s: StrId }          // Box<str>
+impl BoxStr { pub fn as_ref(&self) -> (r: StrId) ensures r == self.s { self.s } }
+pub struct UrlSchemes { pub list: Vec<BoxStr> }     // Vec<Box<str>>: the schemes of a :url capability
+pub open spec fn schemes_contain(u: UrlSchemes, scheme: StrId) -> bool { exists|i: int| 0 <= i < u.list@.len() && (#[trigger] u.list@[i]).s == scheme }
+pub struct SchemeIter<'a> { pub all: &'a Vec<BoxStr>, pub pos: usize }
+impl UrlSchemes {
+    // slice::iter
+    pub fn iter(&self) -> (r: SchemeIter<'_>) ensures r.all == &self.list, r.pos == 0 { SchemeIter { all: &self.list, pos: 0 } }
+}
+impl<'a> SchemeIter<'a> {
+    pub fn next(&mut self) -> (r: Option<&'a BoxStr>)
+        requires old(self).pos <= old(self).all@.len(),
+        ensures final(self).all == old(self).all, final(self).pos <= final(self).all@.len(),
+            match r { Some(b) => old(self).pos < old(self).all@.len() && *b == old(self).all@[old(self).pos as int] && final(self).pos == old(self).pos + 1,
+                      None => old(self).pos == old(self).all@.len() && final(self).pos == old(self).pos }
+    {
+        if self.pos < self.all.len() { let b = &self.all[self.pos]; self.pos = self.pos + 1; Some(b) } else { None }
+    }
+}
 pub struct UnknownUri { pub id: u64 }     // Arc<UriStr>
 //@item file=netconf/src/capabilities.rs kind=enum name=Base
 //@item file=netconf/src/capabilities.rs kind=enum name=Capability sub=/Url(Vec<Box<str>>)=>Url(UrlSchemes);Unknown(Arc<UriStr>)=>Unknown(UnknownUri)/
@@ -17,6 +49,24 @@ pub struct Capabilities { pub set: Ghost<Set<Capability>> }
 impl Capabilities {
     #[verifier::external_body]
     pub fn contains(&self, elem: &Capability) -> (r: bool) ensures r == self.set@.contains(*elem) { unimplemented!() }
+}
+// Capabilities::iter() = HashSet::iter(): every element of the set exactly once, in an ARBITRARY order (the listing is
+// existentially chosen by the shim; everything proved holds for every order)
+pub struct CapIter<'a> { pub elems: Ghost<Seq<Capability>>, pub pos: Ghost<int>, pub _p: core::marker::PhantomData<&'a Capability> }
+impl Capabilities {
+    #[verifier::external_body]
+    pub fn iter<'a>(&'a self) -> (r: CapIter<'a>)
+        ensures r.pos@ == 0, forall|c: Capability| #[trigger] r.elems@.contains(c) <==> self.set@.contains(c)
+    { unimplemented!() }
+}
+impl<'a> CapIter<'a> {
+    #[verifier::external_body]
+    pub fn next(&mut self) -> (r: Option<&'a Capability>)
+        requires 0 <= old(self).pos@ <= old(self).elems@.len(),
+        ensures final(self).elems@ == old(self).elems@, 0 <= final(self).pos@ <= final(self).elems@.len(),
+            match r { Some(c) => old(self).pos@ < old(self).elems@.len() && *c == old(self).elems@[old(self).pos@] && final(self).pos@ == old(self).pos@ + 1,
+                      None => old(self).pos@ == old(self).elems@.len() && final(self).pos@ == old(self).pos@ }
+    { unimplemented!() }
 }
 // session::Context: only the server capabilities matter here
 pub struct Context { pub server_capabilities: Capabilities }
@@ -85,6 +135,9 @@ pub mod operation {
 use super::*;
 broadcast use {lemma_req_any_pair, lemma_req_all_pair};
 
+pub struct UriError;
+pub struct ArcUri { pub id: u64 }        // Arc<UriStr>
+impl From<UriError> for Error { #[verifier::external_body] fn from(e: UriError) -> (r: Error) { unimplemented!() } }
 // crate::Error: the variants the gates construct (data carriers only)
 pub enum Error {
     UnsupportedSource { datastore: Datastore, required_capabilities: Requirements },
@@ -95,6 +148,9 @@ pub enum Error {
     UnsupportedOperationParameter { operation_name: &'static str, param_name: &'static str, required_capabilities: Requirements },
     IncompatibleOperationParameters { operation_name: &'static str, parameters: Vec<&'static str> },
     UnsupportedOperation { operation_name: &'static str, required_capabilities: Requirements },
+    UnsupportedUrlScheme { url: ArcUri },
+    Uri(UriError),
+    DeleteRunningConfig,
     Other,
 }
 
@@ -355,6 +411,8 @@ impl<'a> Builder<'a> {
 
 pub mod lock {
 use super::*;
+//@item file=netconf/src/message/rpc/operation/lock.rs kind=struct name=Lock sub=/target:=>pub target:/
+//@item file=netconf/src/message/rpc/operation/lock.rs kind=struct name=Unlock sub=/target:=>pub target:/
 //@item file=netconf/src/message/rpc/operation/lock.rs kind=struct name=Builder sub=/ctx:=>pub ctx:;target:=>pub target:/
 pub open spec fn inv(b: Builder) -> bool { b.target.value matches Some(ds) ==> permitted_lock_target(ds, b.ctx.server_capabilities.set@) }
 impl<'a> Builder<'a> {
@@ -364,15 +422,37 @@ impl<'a> Builder<'a> {
         ensures res is Ok <==> permitted_lock_target(target, self.ctx.server_capabilities.set@),     // OBL:C09.lock.target_iff_permitted
                 res matches Ok(b) ==> inv(b) && b.target.value == Some(target) && b.ctx == self.ctx, // OBL:C09.lock.builder_holds_only_permitted
 //@end
+//@extract id=lock_builder_new file=netconf/src/message/rpc/operation/lock.rs impl=/^impl<'a> Builder<'a>/ fn=new rules=R1 vis=pub
+//@contract
+        ensures inv(res), res.ctx == ctx, res.target.value is None,
+//@end
+//@extract id=lock_builder_finish file=netconf/src/message/rpc/operation/lock.rs impl=/Builder<'a, Lock> for Builder<'a>/ fn=finish rules=R1 vis=pub
+//@+ sub=/require::<Lock>=>require/
+//@contract
+        requires inv(self),
+        ensures res matches Ok(op) ==> permitted_lock_target(op.target, self.ctx.server_capabilities.set@),   // OBL:C09.lock.request_uses_only_permitted
+                res is Ok <==> self.target.value is Some,                                                   // OBL:C09.lock.complete_request_is_built
+//@end
+//@extract id=unlock_builder_finish file=netconf/src/message/rpc/operation/lock.rs impl=/Builder<'a, Unlock> for Builder<'a>/ fn=finish rules=R1 vis=pub rename=finish_unlock
+//@+ sub=/require::<Unlock>=>require/
+//@contract
+        requires inv(self),
+        ensures res matches Ok(op) ==> permitted_lock_target(op.target, self.ctx.server_capabilities.set@),   // OBL:C09.unlock.request_uses_only_permitted
+                res is Ok <==> self.target.value is Some,                                                   // OBL:C09.unlock.complete_request_is_built
+//@end
 }
 }
 
 pub mod copy_config {
 use super::*;
-pub struct Url { pub id: u64 }
 pub struct StringV { pub id: u64 }
-pub enum Target { Datastore(Datastore), Url(Url) }
-pub enum Source { Datastore(Datastore), Config(StringV), Url(Url) }
+//@item file=netconf/src/message/rpc/operation/copy_config.rs kind=enum name=Target sub=/enum Target=>pub enum Target/
+//@item file=netconf/src/message/rpc/operation/mod.rs kind=enum name=Source sub=/Config(String)=>Config(StringV);Url(Url)=>Url(super::url::Url)/
+//@item file=netconf/src/message/rpc/operation/copy_config.rs kind=struct name=CopyConfig sub=/target:=>pub target:;source:=>pub source:/
+pub open spec fn op_permitted_items(op: CopyConfig, caps: Set<Capability>) -> bool {
+    &&& op.target matches Target::Datastore(ds) ==> permitted_target(ds, caps)
+    &&& op.source matches Source::Datastore(ds) ==> permitted_source(ds, caps)
+}
 //@item file=netconf/src/message/rpc/operation/copy_config.rs kind=struct name=Builder sub=/ctx:=>pub ctx:;target:=>pub target:;source:=>pub source:/
 pub open spec fn inv(b: Builder) -> bool {
     &&& b.target.value matches Some(Target::Datastore(ds)) ==> permitted_target(ds, b.ctx.server_capabilities.set@)
@@ -393,14 +473,24 @@ impl<'a> Builder<'a> {
                 res matches Ok(b) ==> inv(b) && b.ctx == self.ctx,                                   // OBL:C09.copy_config.builder_holds_only_permitted
                 res matches Ok(b) ==> b.source.value == Some(Source::Datastore(source)) && b.target == self.target,   // OBL:C09.copy_config.source_is_recorded
 //@end
+//@extract id=copy_config_builder_new file=netconf/src/message/rpc/operation/copy_config.rs impl=/Builder<'a, CopyConfig> for Builder<'a>/ fn=new rules=R1 vis=pub
+//@contract
+        ensures inv(res), res.ctx == ctx, res.target.value is None, res.source.value is None,
+//@end
+//@extract id=copy_config_builder_finish file=netconf/src/message/rpc/operation/copy_config.rs impl=/Builder<'a, CopyConfig> for Builder<'a>/ fn=finish rules=R1 vis=pub
+//@+ sub=/require::<CopyConfig>=>require/
+//@contract
+        requires inv(self),
+        ensures res matches Ok(op) ==> op_permitted_items(op, self.ctx.server_capabilities.set@),            // OBL:C09.copy_config.request_uses_only_permitted
+                res is Ok <==> self.target.value is Some && self.source.value is Some,                       // OBL:C09.copy_config.complete_request_is_built
+//@end
 }
 }
 
 pub mod validate {
 use super::*;
-pub struct StringV { pub id: u64 }
-pub struct Url { pub id: u64 }
-pub enum Source { Datastore(Datastore), Config(StringV), Url(Url) }
+pub use super::copy_config::{Source, StringV};
+//@item file=netconf/src/message/rpc/operation/validate.rs kind=struct name=Validate sub=/source:=>pub source:/
 //@item file=netconf/src/message/rpc/operation/validate.rs kind=struct name=Builder sub=/ctx:=>pub ctx:;source:=>pub source:/
 pub open spec fn inv(b: Builder) -> bool { b.source.value matches Some(Source::Datastore(ds)) ==> permitted_source(ds, b.ctx.server_capabilities.set@) }
 impl<'a> Builder<'a> {
@@ -410,6 +500,17 @@ impl<'a> Builder<'a> {
         ensures res is Ok <==> permitted_source(source, self.ctx.server_capabilities.set@),          // OBL:C09.validate.source_iff_permitted
                 res matches Ok(b) ==> inv(b) && b.ctx == self.ctx,                                   // OBL:C09.validate.builder_holds_only_permitted
                 res matches Ok(b) ==> b.source.value == Some(Source::Datastore(source)),             // OBL:C09.validate.source_is_recorded
+//@end
+//@extract id=validate_builder_new file=netconf/src/message/rpc/operation/validate.rs impl=/Builder<'a, Validate> for Builder<'a>/ fn=new rules=R1 vis=pub
+//@contract
+        ensures inv(res), res.ctx == ctx, res.source.value is None,
+//@end
+//@extract id=validate_builder_finish file=netconf/src/message/rpc/operation/validate.rs impl=/Builder<'a, Validate> for Builder<'a>/ fn=finish rules=R1 vis=pub
+//@+ sub=/require::<Validate>=>require/
+//@contract
+        requires inv(self),
+        ensures res matches Ok(op) ==> (op.source matches Source::Datastore(ds) ==> permitted_source(ds, self.ctx.server_capabilities.set@)),   // OBL:C09.validate.request_uses_only_permitted
+                res is Ok <==> self.source.value is Some,                                              // OBL:C09.validate.complete_request_is_built
 //@end
 }
 }
@@ -431,10 +532,10 @@ impl<'a> Builder<'a> {
 
 pub mod edit_config {
 use super::*;
-pub struct Url { pub id: u64 }
-pub enum Source<D> { Config(D), Url(Url) }
-pub enum DefaultOperation { Merge, Replace, None }
-pub struct PhantomD<D> { pub _d: core::marker::PhantomData<D> }
+pub use super::url::Url;
+//@item file=netconf/src/message/rpc/operation/edit_config.rs kind=enum name=Source
+//@item file=netconf/src/message/rpc/operation/edit_config.rs kind=enum name=DefaultOperation
+//@item file=netconf/src/message/rpc/operation/edit_config.rs kind=struct name=EditConfig sub=/target:=>pub target:;source:=>pub source:;default_operation:=>pub default_operation:;error_option:=>pub error_option:;test_option:=>pub test_option:/
 //@item file=netconf/src/message/rpc/operation/edit_config.rs kind=struct name=Builder sub=/ctx:=>pub ctx:;target:=>pub target:;source:=>pub source:;default_operation:=>pub default_operation:;error_option:=>pub error_option:;test_option:=>pub test_option:/
 pub open spec fn inv<D>(b: Builder<D>) -> bool {
     &&& b.target.value matches Some(ds) ==> permitted_target(ds, b.ctx.server_capabilities.set@)
@@ -464,6 +565,64 @@ impl<'a, D> Builder<'a, D> {
         ensures res is Ok <==> permitted_test_option(test_option, self.ctx.server_capabilities.set@),     // OBL:C09.edit_config.test_option_iff_permitted
                 res matches Ok(b) ==> inv(b) && b.ctx == self.ctx,                                   // OBL:C09.edit_config.builder_holds_only_permitted
                 res matches Ok(b) ==> b.test_option == test_option && b.target == self.target && b.error_option == self.error_option,   // OBL:C09.edit_config.test_option_is_recorded
+//@end
+//@extract id=edit_config_builder_url file=netconf/src/message/rpc/operation/edit_config.rs impl=/^impl<D> Builder<'_, D>/ fn=url rules=R1,R7,R16,R17 r7map=result vis=pub
+//@sig pub fn url(mut self, url: &str) -> (res: Result<Self, Error>)
+//@contract
+        requires inv(self),
+        ensures res is Ok <==> super::url::uri_valid(url) && super::url::permitted_url(super::url::uri_scheme(url), self.ctx.server_capabilities.set@),   // OBL:C09.edit_config.url_iff_scheme_advertised
+                res matches Ok(b) ==> inv(b) && b.ctx == self.ctx && b.target == self.target && b.error_option == self.error_option && b.test_option == self.test_option,
+//@end
+//@extract id=edit_config_builder_new file=netconf/src/message/rpc/operation/edit_config.rs impl=/Builder<'a, EditConfig<D>> for Builder<'a, D>/ fn=new rules=R1 vis=pub
+//@contract
+        ensures inv(res), res.ctx == ctx, res.target.value is None, res.source.value is None,       // OBL:C09.edit_config.fresh_builder_holds_only_permitted
+//@end
+//@extract id=edit_config_builder_finish file=netconf/src/message/rpc/operation/edit_config.rs impl=/Builder<'a, EditConfig<D>> for Builder<'a, D>/ fn=finish rules=R1 vis=pub
+//@+ sub=/require::<EditConfig<D>>=>require/
+//@contract
+        requires inv(self),
+        ensures res matches Ok(op) ==> permitted_target(op.target, self.ctx.server_capabilities.set@)
+                    && (op.error_option is RollbackOnError ==> permitted_error_option(op.error_option, self.ctx.server_capabilities.set@))
+                    && (!(op.test_option is TestThenSet) ==> permitted_test_option(op.test_option, self.ctx.server_capabilities.set@)),   // OBL:C09.edit_config.request_uses_only_permitted
+                res is Ok <==> self.target.value is Some && self.source.value is Some,                   // OBL:C09.edit_config.complete_request_is_built
+//@end
+}
+}
+
+pub mod delete_config {
+use super::*;
+pub use super::url::Url;
+//@item file=netconf/src/message/rpc/operation/delete_config.rs kind=enum name=Target sub=/enum Target=>pub enum Target/
+//@item file=netconf/src/message/rpc/operation/delete_config.rs kind=struct name=DeleteConfig sub=/target:=>pub target:/
+//@item file=netconf/src/message/rpc/operation/delete_config.rs kind=struct name=Builder sub=/ctx:=>pub ctx:;target:=>pub target:/
+// RFC 6241 7.4: the <running> configuration datastore cannot be deleted; any other datastore named as target must exist
+// (:candidate / :startup), a URL target needs the :url capability with its scheme
+pub open spec fn permitted_delete_target(ds: Datastore, caps: Set<Capability>) -> bool { !(ds is Running) && permitted_target(ds, caps) }
+pub open spec fn inv(b: Builder) -> bool { b.target.value matches Some(Target::Datastore(ds)) ==> permitted_delete_target(ds, b.ctx.server_capabilities.set@) }
+impl<'a> Builder<'a> {
+//@extract id=delete_config_builder_target file=netconf/src/message/rpc/operation/delete_config.rs impl=/^impl Builder<'_>/ fn=target rules=R1,R7,R16,R17 r7map=result vis=pub
+//@contract
+        requires inv(self),
+        ensures res is Ok <==> permitted_delete_target(target, self.ctx.server_capabilities.set@),     // OBL:C09.delete_config.target_iff_permitted
+                res matches Ok(b) ==> inv(b) && b.ctx == self.ctx && b.target.value == Some(Target::Datastore(target)),   // OBL:C09.delete_config.builder_holds_only_permitted
+//@end
+//@extract id=delete_config_builder_url file=netconf/src/message/rpc/operation/delete_config.rs impl=/^impl Builder<'_>/ fn=url rules=R1,R7,R16,R17 r7map=result vis=pub
+//@sig pub fn url(mut self, url: &str) -> (res: Result<Self, Error>)
+//@contract
+        requires inv(self),
+        ensures res is Ok <==> super::url::uri_valid(url) && super::url::permitted_url(super::url::uri_scheme(url), self.ctx.server_capabilities.set@),   // OBL:C09.delete_config.url_iff_scheme_advertised
+                res matches Ok(b) ==> inv(b) && b.ctx == self.ctx,
+//@end
+//@extract id=delete_config_builder_new file=netconf/src/message/rpc/operation/delete_config.rs impl=/Builder<'a, DeleteConfig> for Builder<'a>/ fn=new rules=R1 vis=pub
+//@contract
+        ensures inv(res), res.ctx == ctx, res.target.value is None,
+//@end
+//@extract id=delete_config_builder_finish file=netconf/src/message/rpc/operation/delete_config.rs impl=/Builder<'a, DeleteConfig> for Builder<'a>/ fn=finish rules=R1 vis=pub
+//@+ sub=/require::<DeleteConfig>=>require/
+//@contract
+        requires inv(self),
+        ensures res matches Ok(op) ==> (op.target matches Target::Datastore(ds) ==> permitted_delete_target(ds, self.ctx.server_capabilities.set@)),   // OBL:C09.delete_config.request_uses_only_permitted
+                res is Ok <==> self.target.value is Some,                                              // OBL:C09.delete_config.complete_request_is_built
 //@end
 }
 }
@@ -539,6 +698,83 @@ pub trait Operation: Sized {
             req_sat(Self::spec_required(), ctx.server_capabilities.set@) ==> res == Self::spec_build(*ctx),   // OBL:C09.operation.permitted_operation_is_built
 //@end
 }
+
+// ---------- Url::try_new: the URL scheme gate (RFC 6241 8.8: a URL may be used only if the :url capability lists its scheme) ----------
+pub mod url {
+use super::*;
+#[derive(Clone, Copy)]
+pub struct UriRef { pub scheme: StrId, pub full: StrId, pub id: u64 }          // &UriStr: its scheme component and the whole string
+pub uninterp spec fn uri_valid(s: &str) -> bool;
+pub uninterp spec fn uri_scheme(s: &str) -> StrId;
+pub uninterp spec fn uri_id(s: &str) -> u64;
+pub struct UriStr;
+impl UriStr {
+    // iri-string: validates the string and gives access to its components
+    #[verifier::external_body]
+    pub fn new(s: &str) -> (r: Result<UriRef, UriError>)
+        ensures r is Ok <==> uri_valid(s), r matches Ok(u) ==> u.scheme == uri_scheme(s) && u.id == uri_id(s)
+    { unimplemented!() }
+}
+impl UriRef {
+    pub fn scheme_str(&self) -> (r: StrId) ensures r == self.scheme { self.scheme }
+    pub fn as_str(&self) -> (r: StrId) ensures r == self.full { self.full }
+    pub fn into(self) -> (r: ArcUri) ensures r.id == self.id { ArcUri { id: self.id } }
+}
+pub struct Url { pub inner: ArcUri }
+// the capability c is a :url capability whose scheme list has this scheme
+pub open spec fn cap_lists(c: Capability, scheme: StrId) -> bool { c matches Capability::Url(sch) && schemes_contain(sch, scheme) }
+pub open spec fn permitted_url(scheme: StrId, caps: Set<Capability>) -> bool {
+    exists|c: Capability| #[trigger] caps.contains(c) && cap_lists(c, scheme)
+}
+impl Url {
+//@extract id=url_try_new file=netconf/src/message/rpc/operation/mod.rs impl=/^impl Url/ fn=try_new rules=R1,R28,R7 r7map=result vis=pub
+//@+ sub=/UriStr::new(s.as_ref())=>UriStr::new(s)/
+//@sig pub fn try_new(s: &str, ctx: &Context) -> (res: Result<Self, Error>)
+//@contract
+        ensures
+            // a URL is accepted exactly if it is a URI and some advertised :url capability lists its scheme
+            res is Ok <==> uri_valid(s) && permitted_url(uri_scheme(s), ctx.server_capabilities.set@),   // OBL:C09.url.accepted_iff_scheme_advertised
+            res matches Ok(u) ==> u.inner.id == uri_id(s),                                                 // OBL:C09.url.value_unchanged
+//@loop 1
+            invariant_except_break
+                found__0 is None,
+                forall|j: int| 0 <= j < ot__0.pos@ ==> !cap_lists(#[trigger] ot__0.elems@[j], url.scheme),       // OBL:C09.url.no_match_so_far
+            invariant
+                0 <= ot__0.pos@ <= ot__0.elems@.len(),
+                forall|c: Capability| #[trigger] ot__0.elems@.contains(c) <==> ctx.server_capabilities.set@.contains(c),
+            ensures
+                found__0 is Some <==> permitted_url(url.scheme, ctx.server_capabilities.set@),                 // OBL:C09.url.found_iff_scheme_advertised
+            decreases ot__0.elems@.len() - ot__0.pos@,
+//@loop 2
+            invariant
+                found__0 is None, 0 < ot__0.pos@ <= ot__0.elems@.len(),
+                forall|c: Capability| #[trigger] ot__0.elems@.contains(c) <==> ctx.server_capabilities.set@.contains(c),
+                forall|j: int| 0 <= j < ot__0.pos@ - 1 ==> !cap_lists(#[trigger] ot__0.elems@[j], url.scheme),
+                ot__0.elems@[ot__0.pos@ - 1] matches Capability::Url(sch) && sch.list == *in__0.all,
+                in__0.pos <= in__0.all@.len(),
+                forall|j: int| 0 <= j < in__0.pos ==> (#[trigger] in__0.all@[j]).s != url.scheme,                 // OBL:C09.url.no_scheme_match_so_far
+            ensures
+                found__0 is None, !cap_lists(ot__0.elems@[ot__0.pos@ - 1], url.scheme),
+            decreases in__0.all@.len() - in__0.pos,
+//@before /found__0 = Some\(q__0\)/
+                proof {
+                    let c = ot__0.elems@[ot__0.pos@ - 1];
+                    assert(ot__0.elems@.contains(c));
+                    // (conditional, so that this hint cannot fail: if the code's test is not an equality, it is the loop's
+                    // `ensures` - the labelled obligation - that fails)
+                    if in__0.all@[in__0.pos - 1].s == url.scheme { assert(cap_lists(c, url.scheme)); }
+                }
+//@before /break; \/\*outer exhausted\*\//
+                proof {
+                    assert forall|c: Capability| #[trigger] ctx.server_capabilities.set@.contains(c) implies !cap_lists(c, url.scheme) by {
+                        assert(ot__0.elems@.contains(c));
+                        let j = choose|j: int| 0 <= j < ot__0.elems@.len() && ot__0.elems@[j] == c;
+                        assert(!cap_lists(ot__0.elems@[j], url.scheme));
+                    }
+                }
+//@end
+}
+} // mod url
 
 } // mod operation
 
